@@ -13,69 +13,99 @@
 (* alive); TRUE is the repaired design (the cache entry holds the          *)
 (* arguments the key was computed from).                                   *)
 (*                                                                         *)
+(* The registry of global handlers (register_converter_handler) is state   *)
+(* too: reg counts the registrations; what a fresh build behaves as        *)
+(* depends on the registry it reads.  RegDesign says what the cache does   *)
+(* about it: "found" nothing (a converter memoised before a registration   *)
+(* keeps being returned), "clear" empties the cache at every registration  *)
+(* (refuted by TLC: a build in flight stores a converter made from the old *)
+(* registry afterwards), "keyed" makes the number of registered handlers   *)
+(* part of the key (the repair that was made).                             *)
+(*                                                                         *)
 (* Transparent: a completed lookup returns the converter a fresh build for *)
-(* the type passed in (and the handlers) would return.                     *)
+(* the type passed in, the handlers and a registry that was current at     *)
+(* some moment of the call would return.                                   *)
 (***************************************************************************)
 EXTENDS Integers, Sequences, FiniteSets, TLC
 
-CONSTANTS Addr, Desc, HS, Threads, PinKeyArgs, MaxLevel
+CONSTANTS Addr, Desc, HS, Threads, PinKeyArgs, MaxLevel, MaxReg, RegDesign
 
-VARIABLES heap, live, pins, cache, pc, req, built, ret
-cvars == <<heap, live, pins, cache, pc, req, built, ret>>
+VARIABLES heap, live, pins, cache, pc, req, built, ret, reg
+cvars == <<heap, live, pins, cache, pc, req, built, ret, reg>>
 
 Free == "free"
-NoConv == <<"none", "none">>
-Fresh(d, h) == <<d, h>>                      \* what a fresh build for type d with handlers h behaves as
-NoReq == [a |-> 0, h |-> "none", want |-> "none"]
+NoConv == <<"none", "none", 0>>
+Fresh(d, h, r) == <<d, h, r>>                \* what a fresh build for type d, handlers h, registry r behaves as
+NoReq == [a |-> 0, h |-> "none", want |-> "none", r0 |-> 0, kr |-> 0]
+Keys == Addr \X HS \X (0..MaxReg)
+KeyOf(a, h, r) == <<a, h, IF RegDesign = "keyed" THEN r ELSE 0>>
 
 CInit == /\ heap = [a \in Addr |-> Free] /\ live = {} /\ pins = {}
-         /\ cache = [k \in Addr \X HS |-> NoConv]
+         /\ cache = [k \in Keys |-> NoConv]
          /\ pc = [t \in Threads |-> "idle"] /\ req = [t \in Threads |-> NoReq]
          /\ built = [t \in Threads |-> NoConv] /\ ret = [t \in Threads |-> NoConv]
+         /\ reg = 0
 
 Alloc(a, d) == /\ heap[a] = Free
                /\ heap' = [heap EXCEPT ![a] = d] /\ live' = live \cup {a}
-               /\ UNCHANGED <<pins, cache, pc, req, built, ret>>
+               /\ UNCHANGED <<pins, cache, pc, req, built, ret, reg>>
 (* the caller of make_converter(ty) holds ty for the duration of the call *)
 InUse(a) == \E t \in Threads : pc[t] # "idle" /\ req[t].a = a
 Drop(a) == /\ a \in live /\ ~InUse(a)
            /\ live' = live \ {a}
            /\ heap' = IF a \in pins THEN heap ELSE [heap EXCEPT ![a] = Free]     \* refcount reaches zero: freed at once
-           /\ UNCHANGED <<pins, cache, pc, req, built, ret>>
+           /\ UNCHANGED <<pins, cache, pc, req, built, ret, reg>>
 
+(* Call computes the key: in the "keyed" design the registry size read now is part of it *)
 Call(t, a, h) == /\ pc[t] = "idle" /\ a \in live
-                 /\ req' = [req EXCEPT ![t] = [a |-> a, h |-> h, want |-> heap[a]]]
+                 /\ req' = [req EXCEPT ![t] = [a |-> a, h |-> h, want |-> heap[a], r0 |-> reg, kr |-> reg]]
                  /\ pc' = [pc EXCEPT ![t] = "key"]
-                 /\ UNCHANGED <<heap, live, pins, cache, built, ret>>
+                 /\ UNCHANGED <<heap, live, pins, cache, built, ret, reg>>
 Probe(t) == /\ pc[t] = "key"
-            /\ LET k == <<req[t].a, req[t].h>> IN
+            /\ LET k == KeyOf(req[t].a, req[t].h, req[t].kr) IN
                IF cache[k] # NoConv
                THEN ret' = [ret EXCEPT ![t] = cache[k]] /\ pc' = [pc EXCEPT ![t] = "done"]
                ELSE ret' = ret /\ pc' = [pc EXCEPT ![t] = "miss"]
-            /\ UNCHANGED <<heap, live, pins, cache, req, built>>
+            /\ UNCHANGED <<heap, live, pins, cache, req, built, reg>>
+(* the build reads the registry as it is when the build runs *)
 Build(t) == /\ pc[t] = "miss"
-            /\ built' = [built EXCEPT ![t] = Fresh(heap[req[t].a], req[t].h)]
+            /\ built' = [built EXCEPT ![t] = Fresh(heap[req[t].a], req[t].h, reg)]
             /\ pc' = [pc EXCEPT ![t] = "built"]
-            /\ UNCHANGED <<heap, live, pins, cache, req, ret>>
+            /\ UNCHANGED <<heap, live, pins, cache, req, ret, reg>>
 Store(t) == /\ pc[t] = "built"
-            /\ cache' = [cache EXCEPT ![<<req[t].a, req[t].h>>] = built[t]]
+            /\ cache' = [cache EXCEPT ![KeyOf(req[t].a, req[t].h, req[t].kr)] = built[t]]
             /\ pins' = IF PinKeyArgs THEN pins \cup {req[t].a} ELSE pins
             /\ ret' = [ret EXCEPT ![t] = built[t]]
             /\ pc' = [pc EXCEPT ![t] = "done"]
-            /\ UNCHANGED <<heap, live, req, built>>
+            /\ UNCHANGED <<heap, live, req, built, reg>>
 Return(t) == /\ pc[t] = "done"
              /\ pc' = [pc EXCEPT ![t] = "idle"] /\ req' = [req EXCEPT ![t] = NoReq]
-             /\ UNCHANGED <<heap, live, pins, cache, built, ret>>
+             /\ UNCHANGED <<heap, live, pins, cache, built, ret, reg>>
+
+(* register_converter_handler: one more global handler *)
+Register == /\ reg < MaxReg
+            /\ reg' = reg + 1
+            /\ IF RegDesign = "clear"
+               THEN /\ cache' = [k \in Keys |-> NoConv]
+                    /\ pins' = {}
+                    /\ heap' = [a \in Addr |-> IF a \in pins /\ a \notin live THEN Free ELSE heap[a]]
+               ELSE UNCHANGED <<cache, pins, heap>>
+            /\ UNCHANGED <<live, pc, req, built, ret>>
 
 CNext == \/ \E a \in Addr, d \in Desc : Alloc(a, d)
          \/ \E a \in Addr : Drop(a)
          \/ \E t \in Threads, a \in Addr, h \in HS : Call(t, a, h)
          \/ \E t \in Threads : Probe(t) \/ Build(t) \/ Store(t) \/ Return(t)
+         \/ Register
 CSpec == CInit /\ [][CNext]_cvars
 Bounded == TLCGet("level") <= MaxLevel
 
-Transparent == \A t \in Threads : pc[t] = "done" => ret[t] = Fresh(req[t].want, req[t].h)
-(* what the repaired design maintains: a cached entry describes the object that lives at its address *)
-CacheSound == \A a \in Addr, h \in HS : cache[<<a, h>>] # NoConv => cache[<<a, h>>] = Fresh(heap[a], h)
+Transparent == \A t \in Threads : pc[t] = "done" =>
+                  \E r \in req[t].r0 .. reg : ret[t] = Fresh(req[t].want, req[t].h, r)
+(* what the repaired design maintains: a cached entry describes the object that lives at its address, built *)
+(* from a registry no older than the one its key names                                                     *)
+CacheSound == \A k \in Keys : cache[k] # NoConv =>
+                 /\ cache[k][1] = heap[k[1]] /\ cache[k][2] = k[2]
+                 /\ (RegDesign = "keyed" => cache[k][3] >= k[3])
 PinsLive == \A a \in pins : heap[a] # Free
 =============================================================================
